@@ -1,0 +1,47 @@
+//go:build verif
+
+package pubsub
+
+import (
+	"github.com/libp2p/go-libp2p/core/peer"
+)
+
+// Read-only view of the extensions handshake state of the gossipsub router for
+// the verification harness (extension family X04).
+
+// VerifExtState is a copy of extensionsState.
+type VerifExtState struct {
+	My                  PeerExtensions
+	Peer                map[peer.ID]PeerExtensions // what each peer's first RPC advertised
+	Sent                []peer.ID                  // peers our extensions control message went to
+	HasPartialExtension bool                       // a partial messages extension object is installed
+	HasTestExtension    bool
+}
+
+// VerifExtensions copies the extensions state inside the event loop (nil when
+// the router is not gossipsub or the node is shut down).
+func (p *PubSub) VerifExtensions() *VerifExtState {
+	var st *VerifExtState
+	if err := p.syncEval(func() { st = p.verifExtensionsLocked() }); err != nil {
+		return nil
+	}
+	return st
+}
+
+// VerifExtensionsInLoop is VerifExtensions for callers already on the event loop.
+func (p *PubSub) VerifExtensionsInLoop() *VerifExtState { return p.verifExtensionsLocked() }
+
+func (p *PubSub) verifExtensionsLocked() *VerifExtState {
+	gs, ok := p.rt.(*GossipSubRouter)
+	if !ok || gs.extensions == nil {
+		return nil
+	}
+	es := gs.extensions
+	st := &VerifExtState{My: es.myExtensions, Peer: make(map[peer.ID]PeerExtensions, len(es.peerExtensions)),
+		Sent:                sortedPeerKeys(es.sentExtensions),
+		HasPartialExtension: es.partialMessagesExtension != nil, HasTestExtension: es.testExtension != nil}
+	for pid, e := range es.peerExtensions {
+		st.Peer[pid] = e
+	}
+	return st
+}
